@@ -42,7 +42,7 @@ MateOf(jm) ==
 FragOf(jf) == [hasR1 |-> Has(jf, "r1"), hasR2 |-> Has(jf, "r2"),
                r1 |-> IF Has(jf, "r1") THEN MateOf(jf.r1) ELSE NoMate,
                r2 |-> IF Has(jf, "r2") THEN MateOf(jf.r2) ELSE NoMate,
-               form |-> jf.form]
+               form |-> jf.form, nomd |-> Has(jf, "nomd")]
 
 ACGT == {"A", "C", "G", "T"}
 
@@ -61,9 +61,10 @@ ConsVerdict(e) ==
        ELSE IF got # expS THEN "Inv_C13_Majority"
        ELSE "ok"
 
-(* outside the quantifier: fragments without a first mate (DESIGN 3.13), and fragments handed over as a
-   one-element read list, which the molecule iterator never builds *)
-Outside(e) == \E i \in DOMAIN e.order : cur[e.order[i]].form \in {"r2only", "r1short"}
+(* outside the quantifier: fragments without a first mate (DESIGN 3.13), fragments handed over as a
+   one-element read list (the molecule iterator never builds them), half-mapped pairs (second mate unmapped)
+   and reads that lack the optional MD tag - recorded as observations *)
+Outside(e) == \E i \in DOMAIN e.order : cur[e.order[i]].form \in {"r2only", "r1short", "r2unmapped"} \/ cur[e.order[i]].nomd
 
 Verdict(e) ==
     IF e.ev = "mol" THEN "ok"
@@ -74,7 +75,10 @@ Verdict(e) ==
 
 NoteOutside(line, e) ==
     IF e.ev = "cons" /\ Outside(e)
-    THEN Note(line, e.tid, IF Has(e, "raised") THEN "outside_quantifier_raised_" \o e.raised ELSE "outside_quantifier_returned")
+    THEN Note(line, e.tid, IF Has(e, "raised") THEN "outside_quantifier_raised_" \o e.raised
+                           ELSE IF (\E i \in DOMAIN e.order : cur[e.order[i]].nomd) /\ e.consensus = <<>> THEN "reads_without_MD_tag_empty_consensus"
+                           ELSE IF (\E i \in DOMAIN e.order : cur[e.order[i]].form = "r2unmapped") THEN "half_mapped_pair_returned"
+                           ELSE "outside_quantifier_returned")
     ELSE TRUE
 
 GotOf(e) == IF Has(e, "consensus") THEN { <<x.pos, x.b>> : x \in SeqToSet(e.consensus) } ELSE {}
